@@ -99,6 +99,7 @@ class Typer:
         self.lut_attrs = set()
         self.class_const_index = []      # (func, node, axis label) constant positions used on an axis
         self.reduced_axes = []           # (func, node, axis label) reductions
+        self.class_axis_selections = []  # (func, node, axis label) selections (mask / index / partial slice) along the class axis
 
     # ------------------------------------------------------------------ reporting
     def ok(self, node, detail):
@@ -486,6 +487,8 @@ class Typer:
             if pos >= len(labels):
                 return TOP
             axis = labels[pos]
+            if base(axis) == 'P' and not (isinstance(it, ast.Slice) and it.lower is None and it.upper is None and it.step is None):
+                self.class_axis_selections.append((self.func, e, axis))
             if isinstance(it, ast.Slice):
                 out.append(self.slice_label(e, it, axis, store))
                 pos += 1
@@ -677,6 +680,7 @@ class Typer:
         sub.lut_attrs = self.lut_attrs
         sub.class_const_index = self.class_const_index
         sub.reduced_axes = self.reduced_axes
+        sub.class_axis_selections = self.class_axis_selections
         if hasattr(self, 'reductions'):
             sub.reductions = self.reductions
         return sub.run(callee, env)
@@ -774,7 +778,7 @@ def check_class(ctx, prog, rule, ci, lut_attrs=(), phases=('_initialize', '_upda
     return counter[0], ty
 
 
-def check_family(ctx, prog, rule, modules):
+def check_family(ctx, prog, rule, modules, collect=None):
     """type every concrete mixin whose `_update` or `_compute` is defined in one of `modules` (one class per distinct
     (init, update, compute) implementation triple)."""
     from . import universe, lut
@@ -800,4 +804,6 @@ def check_family(ctx, prog, rule, modules):
         n, ty = check_class(ctx, prog, rule, ci, la)
         total += n
         ctx.count('classes_typed', 1)
+        if collect is not None:
+            collect.append((ci, ty))
     return total
